@@ -148,6 +148,9 @@ def mutating(calls):
     return [c["cmd"] for c in calls if c["cmd"] in ("sbatch", "qsub", "bsub", "scancel", "qdel", "bkill")]
 
 
+COMMANDS_COUNTERS = ("sbatch", "qsub", "bsub")
+
+
 def drive_cli(item):
     rid, scn, variant, backend = item
     sb = sandbox()
@@ -162,6 +165,20 @@ def drive_cli(item):
         sel = ["Nonexistent*", "zzz_no_such_target"]
     obs = {"has_status": False, "has_subs": False, "has_dry": False, "status": {}, "subs": [], "dry": [], "err": ""}
     errs = []
+    prelude = variant % 6 == 4 or (bool(scn["hash"]) and variant % 2 == 0)
+    if prelude:
+        # an earlier `gwf run` whose first submission the scheduler rejected: nothing was accepted, so the project
+        # state - tracked jobs, recorded specs - is what it was, and every decision below must come out the same
+        sub_cmd = {"slurm": "sbatch", "sge": "qsub", "lsf": "bsub"}[backend]
+        sb.set_fault([(sub_cmd, 1, "exit1" if variant % 12 == 4 else "stderr" if backend == "slurm" else "exit1")])
+        sb.gwf(["run"], sub=sub)
+        sb.clear_fault()
+        for c in COMMANDS_COUNTERS:
+            try:
+                os.remove(os.path.join(sb.ctl, "n." + c))
+            except FileNotFoundError:
+                pass
+        sb.new_calls()
     snap0 = sb.digest()
     sb.new_calls()
     r = sb.gwf(["status"], sub=sub)
@@ -205,12 +222,19 @@ def drive_cli(item):
     obs["mut_dry"] = mutating(c2)
     obs["err"] = "; ".join(errs)
     s2 = dict(scn)
-    s2.update(trk={inv[n]: j for n, j in trk.items()}, shapes=shapes, variant=variant, level="cli", backend=backend, sub=sub, nomatch=bool(nomatch))
+    s2.update(trk={inv[n]: j for n, j in trk.items()}, shapes=shapes, variant=variant, level="cli", backend=backend, sub=sub, nomatch=bool(nomatch), prelude=prelude)
     return {"id": rid, "scn": s2, "obs": obs}
 
 
 def drive_cli_sample(ctx, scns, n, first_id, backends=("slurm", "sge", "lsf")):
     rng = random.Random(ctx.seed + 17)
-    pick = scns if len(scns) <= n else rng.sample(scns, n)
+    if len(scns) <= n:
+        pick = scns
+    else:
+        # half of the sample from the scenarios with spec hashing on (they are a minority of the generated ones)
+        hashed = [s for s in scns if s.get("hash")]
+        plain = [s for s in scns if not s.get("hash")]
+        k = min(len(hashed), n // 2)
+        pick = rng.sample(hashed, k) + rng.sample(plain, min(len(plain), n - k))
     items = [(first_id + k, s, ctx.seed * 7919 + k, backends[k % len(backends)]) for k, s in enumerate(pick)]
     return pmap(drive_cli, items, chunk=4)
